@@ -186,3 +186,18 @@ def main_wrapper(pid, fn, level="other"):
         except Exception:
             pass
         return 2
+
+
+class Prefixed:
+    """Report proxy: re-run a sibling module's rule under this property with prefixed rule names."""
+    def __init__(self, rep, prefix):
+        self._rep, self._p = rep, prefix
+
+    def ob(self, rule, *a, **k):
+        return self._rep.ob(self._p + rule, *a, **k)
+
+    def floor(self, rule, *a, **k):
+        return self._rep.floor(self._p + rule, *a, **k)
+
+    def __getattr__(self, n):
+        return getattr(self._rep, n)
